@@ -3,6 +3,7 @@ import importlib
 
 # property -> (module, quick runs, thorough runs)
 TABLE = {
+    "C05": ("dsim.c05", 60_000, 3_000_000),
     "C11": ("dsim.c11", 60_000, 6_000_000),
 }
 
@@ -16,6 +17,13 @@ def budget(prop, tier):
 
 
 MANIFEST_CHECKS = {
+    "C05": {
+        "level": "exploration",
+        "technique": "deterministic simulation: seeded operation/fault histories over a heap of live tiers (incl. save/open through an in-memory FS seam), well-formedness invariant checked after every step",
+        "design_ref": "DESIGN.md s4 C05",
+        "text": "Seeded search over histories (3-14 steps quick, up to 40 thorough) of the property's whole operation alphabet with arbitrary and deliberately invalid arguments on a heap of up to 6 live interval/point tiers, in a dyadic-grid and a decimal numeric regime, plus save->open round trips and hand-written JSON files through SimFS. After every step every created or mutated tier (also the receiver of a mutator that raised) must satisfy the well-formedness invariant and validate() must agree with the simulator's predicate. Sampling, not proof.",
+        "note": "Trusted: the 40-line invariant in dsim/c05.py. Exceptions of any type are accepted (the statement forbids returning ill-formed tiers); non-praatio exception types are reported in the evidence only. NaN/inf/negative input timestamps are not generated.",
+    },
     "C11": {
         "level": "exploration",
         "technique": "deterministic simulation: seeded insert/delete histories on live tiers vs an executable list model, step-by-step, with rejected-call faults",
